@@ -19,6 +19,7 @@ EXPLANATION = (
     "inputs plus the inputs of the substituted values: Subs.__init__ starts from a copy of arg.inputs, deletes every key, and only then "
     "adds the inputs of every value (so f(x=x+1) keeps x). Capture avoidance is decided under C05. NOT decided: the value of a substitution "
     "(renaming onto existing names, diagonals, slices, fusing of chained substitutions)."
+    ' Round 4: R04.4 guards over the pairs (any/all of key membership) are read as quantified statements per branch: handing all pairs to X.eager_subs needs every key in X.fresh, letting an operand pass unsubstituted needs no key among its inputs. R04.5 the Number and Tensor branches of an eager_subs compute the same function of index.data (modulo commutativity). R04.6 a stage of a staged eager_subs whose values may be open terms contains a clash test that depends on its pairs and on the remaining pairs / the term. R04.7 no loop over the pairs removes the current key from a mapping and adds other names to it.'
 )
 ASSUMPTIONS = ["binder hygiene (C05)", "substitution collections are recognised by role: a parameter or local named by the Subs constructor field / iterated as (name, value) pairs"]
 RULE_TEXT = "one obligation per loop over substitution pairs, per filter of foreign names, per step of the Subs typing rule"
